@@ -99,7 +99,18 @@ def gen_case(rng, tier, g):
                                 ntasks=rng.choice([1, 2, 2, 3]),
                                 maxsteps=30,
                                 nrows_hint=max(len(tables[0]) - 1, 2))
+    if any(n.startswith(('sort', 'cache')) or n.endswith('sort')
+           for n, _ in stack) and rng.random() < (
+               0.6 if stack[0][0] == 'cache' else 0.3):
+        for _ in range(rng.choice([1, 1, 2])):
+            steps.insert(rng.randint(0, len(steps)),
+                         ['CLEARCACHE', rng.randrange(nviews),
+                          rng.choice([0, 0, 1])])
     return {'prop': PROP, 'stack': stack, 'tables': tables, 'steps': steps,
+            # the sources are simulated tables handing out the caller's row
+            # objects, or the caller's plain lists themselves
+            'src': rng.choice(['sim', 'plain'] if stack[0][0] == 'cache'
+                              else ['sim', 'sim', 'plain']),
             'shape': shape, 'consumer': rng.choice(CONSUMERS),
             'config': draw_config(rng, 0.1, exclude=('sort_buffersize',)),
             'wrap': rng.random() < 0.2,
@@ -179,7 +190,9 @@ def run_case(case):
                                extra={'group': group, 'why': why})
             tables = [dec_table(t) for t in case['tables']]
             snap_src = snapshot(tables)
-            w, views = build(e, stack, None, mode='alias', tempdir=sb.path,
+            w, views = build(e, stack, None,
+                             mode='plain' if case.get('src') == 'plain'
+                             else 'alias', tempdir=sb.path,
                              tables=tables,
                              wrap_sources=case.get('wrap', False))
             snap_args = snapshot(w.args)
